@@ -199,6 +199,70 @@ def rewardVerify (w : Win) (parentNumber : Nat) (total lockOcc : Nat) (outputs :
         | [] => none   -- `expect("cellbase should have output")` (unreachable when total > 0)
         | o :: _ => some (if o.2 then .ok else .invalidRewardTarget)
 
+/-! ### the cellbase a block must carry (both verifiers; used by the driver's `cellbase` / `cbverify`)
+
+`CellbaseVerifier::verify` (`verification/src/block_verifier.rs`, non-contextual, runs before the
+contextual `RewardVerifier`) rejects a cellbase with more than one output
+(`outputs().len() > 1 → InvalidOutputQuantity`); the other clauses of that verifier (output data
+empty, no type script, witness format, hash types) are about fields the reward model does not
+carry. -/
+
+inductive CbVerdict where
+  | ok
+  | invalidOutputQuantity
+  | invalidRewardTarget
+  | invalidRewardAmount
+deriving Repr, DecidableEq
+
+/-- `CellbaseVerifier`'s output-count clause followed by `RewardVerifier::verify`;
+`none` = `outputs_capacity` overflow / the unreachable `expect` -/
+def cellbaseVerify (w : Win) (parentNumber : Nat) (total lockOcc : Nat) (outputs : List (Nat × Bool)) :
+    Option CbVerdict :=
+  if outputs.length > 1 then some .invalidOutputQuantity
+  else
+    match rewardVerify w parentNumber total lockOcc outputs with
+    | none => none
+    | some .ok => some .ok
+    | some .invalidRewardTarget => some .invalidRewardTarget
+    | some .invalidRewardAmount => some .invalidRewardAmount
+
+/-- the cellbase outputs a block on parent `parentNumber` has to carry, as `(capacity, lock is the
+target's)`: none in the two exempt cases (no finalisation target yet / the reward cannot fill a
+cell locked with the target's lock), else exactly one cell of capacity `total` with that lock.
+This is what an honest assembler emits (`tx-pool/src/block_assembler/mod.rs build_cellbase`:
+`if no_finalization_target || insufficient_reward_to_create_cell { no output } else { output }`) and what the
+harness puts into the blocks it submits. -/
+def expectedCellbase (w : Win) (parentNumber : Nat) (total lockOcc : Nat) : List (Nat × Bool) :=
+  if parentNumber + 1 ≤ finalizationDelay w ∨ lockOcc > total then [] else [(total, true)]
+
+/-- the finalisation target's miner lock, as the verifier reads it: the lock in the cellbase
+WITNESS of block `(parentNumber + 1) − finalization_delay` (not the current block's). `locks` is
+the per-block witness lock `(lock id, args length)` of the main chain. -/
+def targetLock (w : Win) (locks : List (Nat × Nat)) (parentNumber : Nat) : Nat × Nat :=
+  locks.getD ((parentNumber + 1) - finalizationDelay w) (0, 0)
+
+/-- **the seeded regression** (`RewardVerifier::verify` without the
+`|| insufficient_reward_to_create_cell` alternative): the exempt branch is taken only without a
+finalisation target, and the amount/lock checks stay guarded by `if !insufficient…`, so with an
+insufficient reward every cellbase passes. Used only by the negative witness
+`dropped_insufficient_alternative_admits_minting`. -/
+def rewardVerifyDroppedAlternative (w : Win) (parentNumber : Nat) (total lockOcc : Nat)
+    (outputs : List (Nat × Bool)) : Option Verdict :=
+  let noTarget := parentNumber + 1 ≤ finalizationDelay w
+  let insufficient := lockOcc > total
+  if noTarget then
+    some (if outputs.isEmpty then .ok else .invalidRewardTarget)
+  else if ¬ insufficient then
+    match outputs.foldlM (fun acc o => safeAdd acc o.1) 0 with
+    | none => none
+    | some s =>
+      if s ≠ total then some .invalidRewardAmount
+      else
+        match outputs with
+        | [] => none
+        | o :: _ => some (if o.2 then .ok else .invalidRewardTarget)
+  else some .ok
+
 /-! ### specification of the proposer reward (declarative; not used by the driver)
 
 The reading of the property: a committed transaction's proposer share goes to the *earliest*
